@@ -82,15 +82,18 @@ type Session struct {
 	ctx    context.Context
 	cancel context.CancelFunc
 
-	mu       sync.Mutex
-	cond     *sync.Cond
-	out      []*spb.ModifyResponse
-	late     []*spb.ModifyResponse // Sends after the handler returned
-	ended    bool
-	err      error
-	sendErr  error // when set, Send fails
-	sendFail int   // fail the k-th Send from now (1-based); 0 = never
+	mu        sync.Mutex
+	cond      *sync.Cond
+	out       []*spb.ModifyResponse
+	late      []*spb.ModifyResponse // Sends after the handler returned
+	ended     bool
+	err       error
+	sendErr   error // when set, Send fails
+	sendFail  int   // fail the k-th Send from now (1-based); 0 = never
+	sendBlock int   // block the k-th Send from now until the context is cancelled (client stopped reading)
 
+	blocked    bool
+	blockedCh  chan struct{}
 	handlerGID atomic.Int64
 	read       int // responses already consumed by the harness
 	recvs      atomic.Int64
@@ -137,6 +140,21 @@ func (m *modStream) Send(r *spb.ModifyResponse) error {
 			return x.sendErr
 		}
 	}
+	if x.sendBlock > 0 {
+		x.sendBlock--
+		if x.sendBlock == 0 {
+			// flow control: the client does not read; gRPC's Send returns when the
+			// stream's context is cancelled
+			x.blocked = true
+			close(x.blockedCh)
+			x.cond.Broadcast()
+			x.mu.Unlock()
+			<-x.ctx.Done()
+			x.mu.Lock()
+			x.sendErr = status.Error(codes.Canceled, "context canceled")
+			return x.sendErr
+		}
+	}
 	x.out = append(x.out, r)
 	x.cond.Broadcast()
 	return nil
@@ -149,7 +167,7 @@ func (s *Srv) Open() *Session {
 		before[id] = true
 	}
 	ctx, cancel := context.WithCancel(context.Background())
-	x := &Session{srv: s, in: make(chan recvItem), ctx: ctx, cancel: cancel}
+	x := &Session{srv: s, in: make(chan recvItem), ctx: ctx, cancel: cancel, blockedCh: make(chan struct{})}
 	x.cond = sync.NewCond(&x.mu)
 	s.mu.Lock()
 	x.Idx = len(s.sessions)
@@ -210,6 +228,10 @@ func (x *Session) deliver(it recvItem) (bool, *Hang) {
 		return true, nil
 	case <-x.ctx.Done():
 		return false, nil
+	case <-x.blockedCh:
+		// the server is blocked by flow control (BlockSends): it will not read
+		// this message before the stream is cancelled
+		return false, nil
 	case <-t.C:
 		return false, x.hang("deliver request")
 	}
@@ -241,6 +263,44 @@ func (x *Session) FailSends(k int) {
 	x.mu.Lock()
 	defer x.mu.Unlock()
 	x.sendFail = k
+}
+
+// BlockSends makes the k-th Send from now block (the client has stopped
+// reading) until the stream's context is cancelled.
+func (x *Session) BlockSends(k int) {
+	x.mu.Lock()
+	defer x.mu.Unlock()
+	x.sendBlock = k
+}
+
+// WaitBlocked waits until a Send is blocked by BlockSends, or the RPC ended.
+func (x *Session) WaitBlocked() (blocked bool, hang *Hang) {
+	timer := time.AfterFunc(Watchdog, func() {
+		x.mu.Lock()
+		x.cond.Broadcast()
+		x.mu.Unlock()
+	})
+	defer timer.Stop()
+	deadline := time.Now().Add(Watchdog)
+	x.mu.Lock()
+	defer x.mu.Unlock()
+	for !x.blocked && !x.ended {
+		if time.Now().After(deadline) {
+			x.mu.Unlock()
+			h := x.hang("wait for a blocked Send")
+			x.mu.Lock()
+			return false, h
+		}
+		x.cond.Wait()
+	}
+	return x.blocked, nil
+}
+
+// Responses returns all responses the client has received so far.
+func (x *Session) Responses() []*spb.ModifyResponse {
+	x.mu.Lock()
+	defer x.mu.Unlock()
+	return append([]*spb.ModifyResponse(nil), x.out...)
 }
 
 // take returns the responses not yet consumed.
